@@ -5,6 +5,7 @@ package main
 import (
 	"go/token"
 	"go/types"
+	"sort"
 	"strings"
 
 	"golang.org/x/tools/go/ssa"
@@ -39,6 +40,7 @@ func checkC11(p *Prog, r *Report) {
 	ruleC11Loader(p, a, r)
 	ruleC11Name(p, a, r)
 	ruleC11Only(p, a, r)
+	ruleC11NoCache(p, a, r)
 }
 
 func implementsLoader(p *Prog, a *Anchors, f *ssa.Function) bool {
@@ -590,4 +592,66 @@ func isIfExistsLocal(c ssa.Value) bool {
 
 func loadsFieldAny(v ssa.Value, typ, field string) bool {
 	return loadsField(v, typ, field)
+}
+
+// ruleC11NoCache: templates composed by tags are obtained from the loaders each time (set.FromFile /
+// resolveTemplate); the set's cache is an API for the caller only. A tag that takes its template from the cache stops
+// asking the loaders after the first hit: a name that has since appeared in an earlier loader, changed or vanished
+// is not noticed (and a tag running inside a cache fill would re-enter the cache lock).
+func ruleC11NoCache(p *Prog, a *Anchors, r *Report) {
+	r.Begin("R-C11-NOCACHE", "tag code (parsers and node execution) never takes a template from the set's cache: only the exported cache API and the set's own methods reach the cache lookup", 1)
+	ca := &cacheAnchors{}
+	st := a.TemplateSet.Underlying().(*types.Struct)
+	for i := 0; i < st.NumFields(); i++ {
+		if m, ok := st.Field(i).Type().Underlying().(*types.Map); ok {
+			if pt, ok := m.Elem().(*types.Pointer); ok && types.Identical(pt.Elem(), a.Template) {
+				ca.cacheField = st.Field(i).Name()
+			}
+		}
+	}
+	if ca.cacheField == "" {
+		r.Trivial("no-cache", "-", "the set has no map[string]*Template field")
+		return
+	}
+	// functions that look the cache up
+	readers := map[*ssa.Function]bool{}
+	for _, f := range p.Funcs {
+		for _, acc := range cacheAccesses(p, f, ca.cacheField) {
+			if acc.Kind == "lookup" {
+				readers[topLevel(f)] = true
+			}
+		}
+	}
+	n := 0
+	for _, f := range p.inPkgFuncsSorted(p.allFuncSet()) {
+		top := topLevel(f)
+		if top.Signature.Recv() != nil && structOf(top.Signature.Recv().Type()) != nil && structOf(top.Signature.Recv().Type()).Obj().Name() == "TemplateSet" {
+			continue
+		}
+		if top.Name() == "init" || (top.Object() != nil && top.Object().Exported() && top.Signature.Recv() == nil) {
+			continue // package-level convenience API bound to the default set
+		}
+		for _, b := range f.Blocks {
+			for _, in := range b.Instrs {
+				ci, ok := in.(ssa.CallInstruction)
+				if !ok {
+					continue
+				}
+				cal := ci.Common().StaticCallee()
+				if cal == nil || !readers[cal] {
+					continue
+				}
+				n++
+				r.Bad(p.FuncName(f)+":"+cal.Name(), p.InstrPos(in), "%s obtains a template through the cache (%s): after the first hit the loaders are no longer asked for that name", p.FuncName(f), p.FuncName(cal))
+			}
+		}
+	}
+	if n == 0 {
+		names := []string{}
+		for f := range readers {
+			names = append(names, p.FuncName(f))
+		}
+		sort.Strings(names)
+		r.OK("no-cache", "-", "cache readers %v are called only by the set itself and the exported API", names)
+	}
 }
